@@ -3,10 +3,13 @@ package props
 
 import (
 	_ "verif/props/c01"
+	_ "verif/props/c05"
 	_ "verif/props/c06"
 	_ "verif/props/c07"
 	_ "verif/props/c08"
 	_ "verif/props/c09"
+	_ "verif/props/c12"
+	_ "verif/props/c13"
 	_ "verif/props/c14"
 	_ "verif/props/c15"
 	_ "verif/props/c16"
@@ -18,5 +21,8 @@ import (
 	_ "verif/props/c24"
 	_ "verif/props/c25"
 	_ "verif/props/c26"
+	_ "verif/props/c27"
+	_ "verif/props/c28"
+	_ "verif/props/c29"
 	_ "verif/props/c30"
 )
